@@ -85,7 +85,8 @@ class HeapBuilder:
         self.ids[id(x)] = n
         self.keep.append(x)
         ty = S(type(x).__name__)
-        if hasattr(x, '__json__'):
+        sentinel = object()
+        if inspect.getattr_static(x, '__json__', sentinel) is not sentinel:     # runtime Protocol check is static
             if isinstance(x, type):
                 kind = 'type'
             else:
@@ -392,7 +393,7 @@ def compare_asjson(chk: Check, t, mr_reqs, cases, root, label, bkeys_sx, expect_
         v = hb.val(root)
         heap = hb.heap()
     except Unsupported as e:
-        chk.count(f'J1.unsupported.{str(e).split()[0]}')
+        chk.count('J1.unsupported.' + str(e).replace(' ', '-'))
         return False
     except RecursionError:
         chk.count('J1.unsupported.too-deep')
@@ -445,7 +446,7 @@ def settle_asjson(chk: Check, replies, cases, reqs):
 def run_j1_graphs(chk: Check, t, mr: ModelRun, bkeys_sx):
     rng = chk.rng
     reqs, cases = [], []
-    n = 700 if chk.quick else 12000
+    n = 700 if chk.quick else 8000
     for it in range(n):
         size = rng.choice([1, 2, 2, 3, 3, 4, 5, 6])
         root, objs, has_type = gen_graph(rng, t, size)
@@ -457,8 +458,15 @@ def run_j1_graphs(chk: Check, t, mr: ModelRun, bkeys_sx):
                 chk.count('J1.graphs.with-class-object')
     replies = mr.ask(reqs)
     bad = settle_asjson(chk, replies, cases, reqs)
-    cyc = sum(1 for r in replies if '64 48 120' in json.dumps(r))
-    chk.count('J1.graphs.with-reference-string', cyc)
+    def has_ref(p):
+        if isinstance(p, str):
+            return bool(REF_RE.match(p))
+        if isinstance(p, list):
+            return any(has_ref(e) for e in p)
+        if isinstance(p, tuple) and p and p[0] == 'obj':
+            return any(has_ref(v) for _, v in p[1])
+        return False
+    chk.count('J1.graphs.with-reference-string', sum(1 for r in replies if has_ref(model_json_to_py(r))))
     chk.obligation('J1:asjson vs Json.v on generated object graphs (sharing, cycles, weakrefs, nodes)', 'correspondence', bad == 0)
     if reqs:
         chk.sample({'J1.request': reqs[min(5, len(reqs) - 1)][:600]})
@@ -560,7 +568,7 @@ def run_j1b_fromjson(chk: Check, t, mr: ModelRun):
     rng = chk.rng
     reg_sx = sx_list([f'({S("C14Data")} (dc ({S("a")} {S("b")})))', f'({S("C14Plain")} plain)'])
     reqs, expect = [], []
-    n = 700 if chk.quick else 12000
+    n = 700 if chk.quick else 8000
     for it in range(n):
         j = gen_json(rng, 0, ['C14Data', 'C14Plain'])
         try:
@@ -976,7 +984,9 @@ def strip_ids(j):
     if isinstance(j, list):
         return [strip_ids(e) for e in j]
     if isinstance(j, dict):
-        return {k: strip_ids(v) for k, v in j.items()}
+        # BasedRule.rhs / baserule are derived from exp and the base rule by __post_init__ (rebuilt on reload)
+        derived = ('rhs', 'baserule') if j.get('__class__') == 'BasedRule' else ()
+        return {k: strip_ids(v) for k, v in j.items() if k not in derived}
     return j
 
 
@@ -1055,7 +1065,7 @@ def load_source_path(t, src_text, name):
 
 def run_oracle(chk: Check, t, mr: ModelRun, bkeys_sx, reg_sx):
     rng = chk.rng
-    ngr = 90 if chk.quick else 1500
+    ngr = 90 if chk.quick else 900
     j1_reqs, j1_cases = [], []
     j2_reqs, j2_cases = [], []
     nbad = {'json': 0, 'pickle': 0, 'source': 0, 'dump': 0}
@@ -1088,7 +1098,12 @@ def run_oracle(chk: Check, t, mr: ModelRun, bkeys_sx, reg_sx):
         ref_results = [parse_outcome(t, m, s, **parse_kw) for s in inputs]
         for s, r in zip(inputs, ref_results):
             chk.count('oracle.parses.' + r[0])
-        ref = model_facts(t, m)
+        try:
+            ref = model_facts(t, m)
+        except Exception as e:   # noqa: BLE001
+            chk.violation(f'oracle:model-facts-raise-{type(e).__name__}', f'asjson()/pretty() of a compiled model raises: {e!r}'[:300],
+                          {'oracle': 'model.asjson() / pretty()', 'grammar': text})
+            continue
 
         def check_path(path, loader, ref_facts, build_variant):
             """returns (diffclass, detail) of the reload through one serialization path for grammar text"""
@@ -1163,10 +1178,17 @@ def run_oracle(chk: Check, t, mr: ModelRun, bkeys_sx, reg_sx):
         except Unsupported as e:
             chk.count(f'J2.unsupported.{e}')
     chk.count('oracle.compiled', compiled)
-    chk.obligation('oracle:JSON reload yields the same rules/directives/keywords and parses', 'oracle', nbad['json'] == 0)
-    chk.obligation('oracle:pickle reload yields the same rules/directives/keywords and parses', 'oracle', nbad['pickle'] == 0)
-    chk.obligation('oracle:model-source reload yields the same rules/directives/keywords and parses', 'oracle', nbad['source'] == 0)
-    chk.obligation('oracle:json.dumps(asjson(parse result)) succeeds', 'oracle', nbad['dump'] == 0)
+    def unlisted(prefix):
+        return [v for v in chk.violations if v['signature'].startswith(prefix)]
+    chk.count('oracle.reload-differs.json', nbad['json'])
+    chk.count('oracle.reload-differs.pickle', nbad['pickle'])
+    chk.count('oracle.reload-differs.source', nbad['source'])
+    chk.obligation('oracle:JSON reload yields the same rules/directives/keywords and parses (outside listed findings)', 'oracle',
+                   not unlisted('json:'))
+    chk.obligation('oracle:pickle reload yields the same rules/directives/keywords and parses', 'oracle', not unlisted('pickle:'))
+    chk.obligation('oracle:model-source reload yields the same rules/directives/keywords and parses (outside listed findings)',
+                   'oracle', not unlisted('source:'))
+    chk.obligation('oracle:json.dumps(asjson(parse result)) succeeds', 'oracle', not unlisted('oracle:result-not-dumpable'))
     # J1 on parse results / models
     replies = mr.ask(j1_reqs)
     bad = settle_asjson(chk, replies, j1_cases, j1_reqs)
@@ -1374,7 +1396,14 @@ def attribute_source(t, g, gname, why):
                     yield from tuples(e, depth + 1)
         one_tuple = any(len(tp) == 1 for tp in tuples(m))
     if one_tuple:
-        return 'source:one-element-tuple', text
+        # is the comma of a one-element tuple really dropped by the printer of this tree?
+        from tatsu.util.indent import fold
+        try:
+            dropped = eval(fold(prefix='', value=('x',))) != ('x',)   # noqa: S307
+        except Exception:   # noqa: BLE001
+            dropped = True
+        if dropped:
+            return 'source:one-element-tuple', text
     if sublist:
         return 'source:list-subclass-unbracketed', text
     return f'source:other:{why}', text
@@ -1458,10 +1487,16 @@ def main():
             else:
                 reg_items.append(f'({S(name)} plain)')
         reg_sx = sx_list(reg_items)
-        run_witnesses(chk, t)
-        run_j1_graphs(chk, t, mr, bkeys_sx)
-        run_j1b_fromjson(chk, t, mr)
-        run_oracle(chk, t, mr, bkeys_sx, reg_sx)
+        for phase, fn in (('witnesses', lambda: run_witnesses(chk, t)),
+                          ('J1-graphs', lambda: run_j1_graphs(chk, t, mr, bkeys_sx)),
+                          ('J1b-fromjson', lambda: run_j1b_fromjson(chk, t, mr)),
+                          ('oracle', lambda: run_oracle(chk, t, mr, bkeys_sx, reg_sx))):
+            try:
+                fn()
+            except Exception as e:   # noqa: BLE001  (a crash of the real code inside a phase is a finding, not a harness exit)
+                import traceback
+                chk.violation(f'phase-crashed:{phase}:{type(e).__name__}', f'phase {phase} stopped: {e!r}'[:300],
+                              {'phase': phase, 'traceback': traceback.format_exc()[-3000:]})
     chk.exhaustive = False
     return chk.finish()
 
